@@ -61,6 +61,14 @@ class DecisionOb(SmtOb):
         e1, e2 = _affine(c1, ps), _affine(c2, ps)
         out = {"eq": bool(are_shape_components_equal(e1, e2)), "eq_rev": bool(are_shape_components_equal(e2, e1)),
                "shapes": bool(are_shapes_equal((e1, 3), (e2, 3)))}
+        # two symbolic axes whose mismatches could cancel, and spellings in which a parameter appears but cancels
+        out["shapes_swapped"] = bool(are_shapes_equal((e1, e2), (e2, e1)))
+        out["shapes_shifted"] = bool(are_shapes_equal((e1 + 1, e2), (e1, e2 + 1)))
+        try:
+            out["cancel_same"] = bool(are_shape_components_equal((e1 + e2) - e2, e1))
+            out["cancel_other"] = bool(are_shape_components_equal((e1 + e2) - e2, e2))
+        except Exception as e:  # noqa: BLE001
+            out["cancel_exc"] = type(e).__name__
         # sign decisions ("True iff it can be PROVEN": a True must hold for every non-negative size)
         from pytato.utils import _is_non_negative, _is_non_positive
         try:
@@ -151,6 +159,14 @@ class DecisionOb(SmtOb):
                 pass
             elif real["eq"] != eq or real["eq_rev"] != eq or real["shapes"] != eq:
                 bad = "are_shape_components_equal / are_shapes_equal"
+            elif real["shapes_swapped"] != eq:
+                bad = "are_shapes_equal((e1, e2), (e2, e1)) must hold exactly when e1 == e2 for all sizes"
+            elif real["shapes_shifted"]:
+                bad = "are_shapes_equal((e1 + 1, e2), (e1, e2 + 1)) answered True"
+            elif real.get("cancel_same") is False:
+                bad = "(e1 + e2) - e2 was not recognised as equal to e1 (a parameter that cancels)"
+            elif "cancel_other" in real and real["cancel_other"] != eq:
+                bad = "(e1 + e2) - e2 compared with e2 must be equal exactly when e1 == e2 for all sizes"
             elif "stack" not in real:
                 pass
             elif real["stack"] != eq:
@@ -189,6 +205,10 @@ class DecisionOb(SmtOb):
                         not (-v1 <= k < v1) for k in real.get("int_index_accepted", ())):
                     return True, {"real_code": real, "witness": {"sizes": list(vals), "e1": v1}, "what": what}
             return False, {"real_code": real, "why": "no size in 0..4 falsifies the decision", "what": what}
+        if any(w in what for w in ("(e2, e1)", "e2 + 1", "- e2")):
+            bad2 = (real["shapes_swapped"] != truth_eq or real["shapes_shifted"] or real.get("cancel_same") is False
+                    or ("cancel_other" in real and real["cancel_other"] != truth_eq))
+            return bool(bad2), {"real_code": real, "witness": differ, "what": what, "e1 == e2 on the grid 0..4": truth_eq}
         bad = real["eq"] != truth_eq or real.get("stack", truth_eq) != truth_eq
         return bad or bool(args.get("what")), {"real_code": real, "witness": differ, "what": args.get("what")}
 
